@@ -247,7 +247,11 @@ impl Sim {
             self.log.str(&serde_json::to_string(&op).unwrap());
             self.trace.str(op.kind());
             note!(self, "OP {:?}", op);
-            if let Op::Crash { lose_answers } = op {
+            if let Op::Crash {
+                lose_answers,
+                down_s,
+            } = op
+            {
                 self.stats.fault("node-crash");
                 if lose_answers {
                     self.stats.fault("response-lost-in-crash");
@@ -256,10 +260,16 @@ impl Sim {
                 self.or.on_crash(&self.w);
                 self.w.node.crash(since);
                 // Time does not stand still while the node is down.
-                self.w.now_ms += 1000;
+                self.w.now_ms += down_s.max(1) * 1000;
+                if down_s > 3600 {
+                    self.stats.fault("long-downtime");
+                }
                 return End::Crash;
             }
             self.w.step += 1;
+            if self.w.node.expire_waits(self.w.now_ms) > 0 {
+                self.stats.fault("waitsendpay-timeout-200");
+            }
             self.w.op_kind = op.kind();
             self.w.step_delivered_calls.clear();
             self.w.step_delivers_only_nontrampoline = false;
@@ -521,6 +531,33 @@ impl Sim {
         self.settle().await;
         self.process_events();
         let opts = self.init_options();
+        if self.w.cfg.pipeline_init {
+            // The first hook call arrives in the same chunk as `init`.
+            let init = json!({"jsonrpc":"2.0","id":format!("hs:init:{}", lt),"method":"init","params":{
+                "options": opts,
+                "configuration": {"lightning-dir":"/l/regtest","rpc-file":"lightning-rpc","startup":true,"network":"regtest",
+                    "feature_set":{"init":"08a0880a8a59a1","node":"88a0880a8a59a1","channel":"","invoice":"02000002024100"}}}});
+            let mut prefix = serde_json::to_vec(&init).unwrap();
+            prefix.extend_from_slice(b"\n\n");
+            let spec = content::HtlcSpec {
+                hash_ix: 0,
+                htlc_hash: pool().hashes[0],
+                amount_msat: 1000,
+                expiry_off: 2000,
+                expiry_abs: None,
+                rel_override: None,
+                forward_msat: Some(1000),
+                total_msat: Some(1000),
+                onion_scid: Some("1x2x3".to_string()),
+                payload_hex: "".to_string(),
+                tag: "forward-pipelined-behind-init",
+                intended_good: false,
+            };
+            let hid = self.add_htlc(spec, u32::MAX - 1, false);
+            self.w.step_delivered_calls.clear();
+            self.deliver_now(&[hid], u32::MAX, prefix);
+            self.stats.fault("request-pipelined-behind-init");
+        } else {
         self.send_msg(
             &json!({"jsonrpc":"2.0","id":format!("hs:init:{}", lt),"method":"init","params":{
                 "options": opts,
@@ -528,6 +565,7 @@ impl Sim {
                     "feature_set":{"init":"08a0880a8a59a1","node":"88a0880a8a59a1","channel":"","invoice":"02000002024100"}}}}),
             true,
         );
+        }
         for _ in 0..6 {
             self.settle().await;
             self.process_events();
@@ -744,63 +782,7 @@ impl Sim {
                 if !self.w.init_acked {
                     return;
                 }
-                let mut bytes: Vec<u8> = Vec::new();
-                let base = self.stdin_written;
-                let ccfg = self.w.class_cfg();
-                for hid in hids {
-                    let ok = (*hid as usize) < self.w.node.htlcs.len()
-                        && self.w.node.htlcs[*hid as usize].state == HtlcState::Offered;
-                    if !ok {
-                        continue;
-                    }
-                    let (params, call_id) = self.build_call(*hid);
-                    let class = rf::classify(&params, &ccfg);
-                    let msg = json!({"jsonrpc":"2.0","id":call_id,"method":"htlc_accepted","params":params});
-                    let mut s = serde_json::to_vec(&msg).unwrap();
-                    s.extend_from_slice(b"\n\n");
-                    bytes.extend_from_slice(&s);
-                    let seq = self.w.node.tick();
-                    let lt = self.w.node.lifetime;
-                    self.w.node.calls.push(CallRec {
-                        call_id,
-                        hid: *hid,
-                        lifetime: lt,
-                        params,
-                        class: class.clone(),
-                        written_seq: seq,
-                        delivered_step: None,
-                        delivered_at_ms: None,
-                        answer: None,
-                        answered_step: None,
-                        answered_at_ms: None,
-                        extra_answers: 0,
-                        end_offset: base + bytes.len() as u64,
-                    });
-                    let ci = self.w.node.calls.len() - 1;
-                    let h = &mut self.w.node.htlcs[*hid as usize];
-                    h.state = HtlcState::InFlight(ci);
-                    h.class = class;
-                    h.deliveries += 1;
-                    if h.deliveries > 1 {
-                        self.stats.fault("htlc-replay");
-                    }
-                    self.stats.calls += 1;
-                }
-                if bytes.is_empty() {
-                    return;
-                }
-                let rel = (*release as usize).min(bytes.len());
-                if rel < bytes.len() {
-                    self.stats.fault("stdin-chunked");
-                }
-                seam::stdin_push(&bytes, rel);
-                self.stdin_written += bytes.len() as u64;
-                self.stdin_released += rel as u64;
-                // Bytes written earlier but not yet released stay in front.
-                let unreleased = seam::stdin_unreleased() as u64;
-                self.stdin_released = self.stdin_written - unreleased;
-                self.w.step_has_rpc_stimulus = true;
-                self.mark_delivered();
+                self.deliver_now(hids, *release, Vec::new());
             }
             Op::Feed { n } => {
                 seam::stdin_release(*n as usize);
@@ -886,7 +868,13 @@ impl Sim {
                 }
             }
             Op::Time { ms } => {
-                tokio::time::sleep(Duration::from_millis(*ms)).await;
+                // tokio's timer wheel spans ~2.2 years; never sleep longer than
+                // 116 days at once (every finite configured timeout is far below).
+                // and never drive one runtime's clock past ~1.6 years in total.
+                let elapsed = self.w.now_ms.saturating_sub(self.w.lifetime_base_ms);
+                let room = 50_000_000_000u64.saturating_sub(elapsed).max(1);
+                let ms = (*ms).min(10_000_000_000).min(room);
+                tokio::time::sleep(Duration::from_millis(ms)).await;
                 self.refresh_now();
             }
             Op::Block { k, notify } => {
@@ -969,6 +957,69 @@ impl Sim {
         }
     }
 
+    /// Writes htlc_accepted requests for `hids` (preceded by `prefix` bytes) to
+    /// the plugin's stdin in one write.
+    fn deliver_now(&mut self, hids: &[u64], release: u32, prefix: Vec<u8>) {
+        let mut bytes: Vec<u8> = prefix;
+        let base = self.stdin_written;
+        let ccfg = self.w.class_cfg();
+        for hid in hids.iter() {
+            let ok = (*hid as usize) < self.w.node.htlcs.len()
+                && self.w.node.htlcs[*hid as usize].state == HtlcState::Offered;
+            if !ok {
+                continue;
+            }
+            let (params, call_id) = self.build_call(*hid);
+            let class = rf::classify(&params, &ccfg);
+            let msg = json!({"jsonrpc":"2.0","id":call_id,"method":"htlc_accepted","params":params});
+            let mut s = serde_json::to_vec(&msg).unwrap();
+            s.extend_from_slice(b"\n\n");
+            bytes.extend_from_slice(&s);
+            let seq = self.w.node.tick();
+            let lt = self.w.node.lifetime;
+            self.w.node.calls.push(CallRec {
+                call_id,
+                hid: *hid,
+                lifetime: lt,
+                params,
+                class: class.clone(),
+                written_seq: seq,
+                delivered_step: None,
+                delivered_at_ms: None,
+                answer: None,
+                answered_step: None,
+                answered_at_ms: None,
+                extra_answers: 0,
+                end_offset: base + bytes.len() as u64,
+            });
+            let ci = self.w.node.calls.len() - 1;
+            let h = &mut self.w.node.htlcs[*hid as usize];
+            h.state = HtlcState::InFlight(ci);
+            h.class = class;
+            h.deliveries += 1;
+            if h.deliveries > 1 {
+                self.stats.fault("htlc-replay");
+            }
+            self.stats.calls += 1;
+        }
+        if bytes.is_empty() {
+            return;
+        }
+        let rel = (release as usize).min(bytes.len());
+        if rel < bytes.len() {
+            self.stats.fault("stdin-chunked");
+        }
+        seam::stdin_push(&bytes, rel);
+        self.stdin_written += bytes.len() as u64;
+        self.stdin_released += rel as u64;
+        // Bytes written earlier but not yet released stay in front.
+        let unreleased = seam::stdin_unreleased() as u64;
+        self.stdin_released = self.stdin_written - unreleased;
+        self.w.step_has_rpc_stimulus = true;
+        self.mark_delivered();
+
+    }
+
     pub fn apply_rpc(&mut self, i: usize, fault: RpcFault, deliver: bool) {
         if !matches!(self.w.node.rpcs[i].state, RpcState::Issued) {
             return;
@@ -995,6 +1046,11 @@ impl Sim {
             }),
             (RpcFault::AppliedButError, _) => self.stats.fault("rpc-applied-but-error"),
             (RpcFault::None, _) => {}
+        }
+        if let RpcState::WaitingPart(_) = self.w.node.rpcs[i].state {
+            if let Some(t) = self.w.node.rpcs[i].params.get("timeout").and_then(|t| t.as_u64()) {
+                self.w.node.rpcs[i].deadline_ms = Some(self.w.now_ms + t * 1000);
+            }
         }
         self.log.str("applied");
         self.log.u64(self.w.node.rpcs[i].id);
@@ -1108,6 +1164,15 @@ impl Sim {
                 PluginEvent::MainReturned(r) => {
                     self.log.str("main-returned");
                     note!(self, "MAIN RETURNED {:?}", r);
+                    if self.w.init_acked && self.w.cfg.mode == "process" {
+                        let held = self.w.node.held_calls().count();
+                        let detail = format!(
+                            "the plugin's main() returned ({:?}) although its input was never closed; {} hook calls were still unanswered",
+                            r, held
+                        );
+                        self.or.violate(&self.w, "C17", "io-loop-ended", detail.clone());
+                        self.or.violate(&self.w, "C06", "plugin-exited", detail);
+                    }
                     self.w.main_result = Some(r);
                     self.w.plugin_up = false;
                 }
